@@ -394,5 +394,8 @@ def run(ctx, rep):
         from ..streamrules import rule_io_protocol
         rule_io_protocol(F, rep, "stream-refusal-leaves-no-buffer")
     rep.info["argument"] = EXPLANATION_PROOF
+    # "bounded parses read the buffer only through get(a..b)": the read template, C04
+    from ._common import premise
+    premise(ctx, rep, "C04", "every integer read is data.get(off..off+width) or an error", rules={"read-template", "no-override"}, where="src/endian.rs")
     rep.trusted_base += ["<[u8]>::get(a..b) returns exactly bytes [a,b) or None; bounded parses read only via get (C04)",
                         "sub-buffers (section / segment slices) have header-designated extents and are therefore not length-tainted"]
